@@ -343,7 +343,14 @@ def deep_walks(res, exe, wd, prop, tier):
     for i, j in enumerate(direct):
         if j["id"].startswith("walk-builtin") and not j["id"].endswith("-0"):
             continue
-        jobs.append(dict(j, id=j["id"] + "-loop", via="loop", noise=i % 4, steps=min(j["steps"], 600 if not thorough else 2000), seed=j["seed"] + 7))
+        lj = dict(j, id=j["id"] + "-loop", via="loop", noise=i % 4, steps=min(j["steps"], 600 if not thorough else 2000), seed=j["seed"] + 7)
+        # every second of them with several events per wake-up (runs of up to four key events that have all arrived when the loop wakes up)
+        # and a signal in front of a wake-up now and then; one in eight with one write answered EAGAIN (the loop may stop there, or retry)
+        if (i // 4) % 2 == 1:
+            lj["wake"] = 1 + i
+            if (i // 8) % 4 == 1:
+                lj["sendfault"] = 25 + 7 * (i % 9)
+        jobs.append(lj)
     nchunks = PROCS
     t0 = time.time()
     traces = []
@@ -397,7 +404,7 @@ def deep_walks(res, exe, wd, prop, tier):
             wjob = next((j for j in jobs if j["id"] == wid), {})
             if nbad <= 5:
                 res.violation(",".join(clauses), {"engine": "E1-mapper-walk", "walk_id": wid, "layout": rows[start]["layout"], "keys": rows[start]["keys"], "history": hist,
-                                                   "via": wjob.get("via", "direct"), "noise": wjob.get("noise", 0),
+                                                   "via": wjob.get("via", "direct"), "noise": wjob.get("noise", 0), "wake": wjob.get("wake", 0), "sendfault": wjob.get("sendfault", 0),
                                                    "observed": [{"in": row["e"], "out": row["ev"], "rep": row["rep"]} for row in rows[max(start + 1, at - 8):at]],
                                                    "how": "bin/check %s --replay <this file> lets the real mapper follow exactly this history again and TLC judge it" % prop})
             else:
@@ -406,8 +413,8 @@ def deep_walks(res, exe, wd, prop, tier):
     return {"deep_walks": regs[0], "deep_walk_steps_validated": regs[1], "deep_walk_steps_with_a_mapping_fired": regs[3], "deep_walk_release_all_steps": regs[4], "deep_walk_drifts": regs[2],
             "deep_walks_through_the_real_loop_and_driver": sum(1 for j in jobs if j.get("via") == "loop"),
             "deep_walk_bounds": "random histories over every key the layout mentions (+2 foreign), 4-6 keys held, 7% ill-formed events, 1% release_all; about half of the walks are taken "
-                                "through the real per-device loop and the real driver at the system-call level (one event per wake-up, a reset = the tablet switch going on and off, "
-                                "evdev framing / auto-repeat noise): there the judged output is what the loop wrote to the virtual keyboard"}
+                                "through the real per-device loop and the real driver at the system-call level (half of them one event per wake-up, half with runs of up to four events "
+                                "per wake-up and interrupted waits, a few with one write answered EAGAIN; a reset = the tablet switch going on and off, evdev framing / auto-repeat noise): there the judged output is what the loop wrote to the virtual keyboard"}
 
 
 def replay_walk(prop, path):
@@ -416,7 +423,7 @@ def replay_walk(prop, path):
         exe = build_harness()
         wd = workdir("%s-replay" % prop)
         jp = os.path.join(wd, "walkjobs.json")
-        json.dump({"jobs": [{"id": "replay", "layout": rp["layout"], "keys": rp["keys"], "maxheld": 9, "history": rp["history"], "via": rp.get("via", "direct"), "noise": rp.get("noise", 0)}]}, open(jp, "w"))
+        json.dump({"jobs": [{"id": "replay", "layout": rp["layout"], "keys": rp["keys"], "maxheld": 9, "history": rp["history"], "via": rp.get("via", "direct"), "noise": rp.get("noise", 0), "wake": rp.get("wake", 0), "sendfault": rp.get("sendfault", 0)}]}, open(jp, "w"))
         tp = os.path.join(wd, "walk.ndjson")
         run_tmv(exe, ["walk", jp], stdout_path=tp)
         props = [prop] + (["RA"] if prop in WITH_RA or any(e["t"] == "RA" for e in rp["history"]) else [])
